@@ -346,6 +346,10 @@ func (bc *BlockChain) insertChain(chain types.Blocks) (int, []interface{}, []*ty
 				logging.Error("insertChain verifyHeader failed:", "err", err)
 				return i, events, coalescedLogs, err
 			}
+			if err = bc.Validator().ValidateBody(block); err != nil {
+				logging.Error("insertChain ValidateBody failed:", "err", err)
+				return i, events, coalescedLogs, err
+			}
 
 		case err != nil:
 			bc.reportBlock(block, nil, err)
